@@ -18,6 +18,8 @@ CONSTANTS Streams, W0, C0, MF0, DataSizes, PadSizes, Incs, InitWins, MaxFrames,
           BugZeroCostHeld, \* TRUE: relay.go:562 as found - a frame that is not flow-controlled is held back while a window is negative
           WithSettings,    \* FALSE: the sender's own SETTINGS frames and the receiver's empty one are left out (state space)
           DropOnClose,     \* TRUE: as found - when the sender's connection ends, what the relay still holds for the receiver is dropped
+          ForwardInitWin,  \* TRUE: as found - the receiver's SETTINGS_INITIAL_WINDOW_SIZE is passed on to the sender, whose own
+                           \* windows towards the relay it then governs (while the receiver's WINDOW_UPDATEs stay with the relay)
           SplitOnlyAtEnqueue \* TRUE: as found - DATA is cut to the receiver's max frame size when queued and never again;
                              \* FALSE: the writer cuts a frame that has waited to the limit in force when it is written
 
@@ -25,6 +27,7 @@ VARIABLES q, sw, bufs, cw, iw, mf, out, cont,      \* relay (flowMu-protected + 
           ctl,                                     \* B -> relay control frames in flight
           gS, gC, bad, badMF,                      \* B's credit ledger, as processed by the relay (ghost)
           aFC, aFCc, aCred, aCredC,                \* A's ledger (ghost)
+          aInit,                                   \* the initial stream window A has been told to use towards the relay
           sentLog, dlvLog, nSend, nCtl,
           hcount, encOrder, dlvOrder,              \* ghost: header blocks in the order encoded / delivered
           pings, goneAway,                         \* connection-level frames: PINGs sent and not yet seen by B; GOAWAY sent / seen
@@ -34,7 +37,7 @@ VARIABLES q, sw, bufs, cw, iw, mf, out, cont,      \* relay (flowMu-protected + 
 
 rel   == <<q, sw, bufs, cw, out>>
 ledg  == <<gS, gC, bad, badMF>>
-aled  == <<aFC, aFCc, aCred, aCredC>>
+aled  == <<aFC, aFCc, aCred, aCredC, aInit>>
 hp    == <<hcount, encOrder, dlvOrder>>
 conn  == <<pings, goneAway, aClosed, sets>>
 vars  == <<rel, iw, mf, cont, ctl, ledg, aled, sentLog, dlvLog, nSend, nCtl, hp, conn>>
@@ -46,7 +49,7 @@ Init ==
   /\ q = [s \in Streams |-> <<>>] /\ sw = [s \in Streams |-> 0] /\ bufs = {}
   /\ cw = C0 /\ iw = W0 /\ mf = MF0 /\ out = <<>> /\ cont = NoCont /\ ctl = <<>>
   /\ gS = [s \in Streams |-> W0] /\ gC = C0 /\ bad = FALSE /\ badMF = FALSE
-  /\ aFC = [s \in Streams |-> 0] /\ aFCc = 0 /\ aCred = [s \in Streams |-> 0] /\ aCredC = 0
+  /\ aFC = [s \in Streams |-> 0] /\ aFCc = 0 /\ aCred = [s \in Streams |-> 0] /\ aCredC = 0 /\ aInit = W0
   /\ sentLog = [s \in Streams |-> <<>>] /\ dlvLog = [s \in Streams |-> <<>>]
   /\ nSend = 0 /\ nCtl = 0
   /\ hcount = 0 /\ encOrder = <<>> /\ dlvOrder = <<>>
@@ -139,7 +142,7 @@ ASendData(s, n, pad, es) ==
        /\ aCred' = [aCred EXCEPT ![s] = @ + cr] /\ aCredC' = aCredC + cr
   /\ sentLog' = [sentLog EXCEPT ![s] = AddEl(@, "b", n, es)]
   /\ EnqueueEmit(s, Split(s, n, es, mf))
-  /\ UNCHANGED <<iw, mf, cont, ctl, nCtl, conn>>
+  /\ UNCHANGED <<iw, mf, cont, ctl, nCtl, conn, aInit>>
 
 ASendHeaders(s, es) ==                 \* HEADERS with END_HEADERS
   /\ nSend < MaxSend /\ cont.s = 0 /\ nSend' = nSend + 1
@@ -283,7 +286,9 @@ ApplyCtl ==
                /\ mf' = f.v
                /\ UNCHANGED <<rel, iw, ledg, dlvLog, hp>>
           [] f.t = "SE" -> UNCHANGED <<rel, iw, mf, ledg, dlvLog, hp>>
-  /\ UNCHANGED <<cont, aled, sentLog, nSend, nCtl, conn>>
+     \* relay.go processFrame, SettingsFrame: what is passed on to A with the frame
+     /\ aInit' = IF f.t = "SI" /\ ForwardInitWin THEN f.v ELSE aInit
+  /\ UNCHANGED <<cont, aFC, aFCc, aCred, aCredC, sentLog, nSend, nCtl, conn>>
 
 Next ==
   \/ \E s \in Streams, n \in DataSizes, p \in PadSizes, es \in BOOLEAN : ASendData(s, n, p, es)
@@ -309,6 +314,12 @@ Spec == Init /\ [][Next]_vars /\ WF_vars(WriterSend) /\ WF_vars(ApplyCtl) /\ WF_
 WithinGrant      == ~bad                       \* C09: stream and connection credit respected
 WithinMaxFrame   == ~badMF                     \* C09: frame size limit respected
 CreditReturned   == aCredC = aFCc /\ \A s \in Streams : aCred[s] = aFC[s]      \* C09
+\* C09: "a conforming sender is never starved by the relay" - the window A may use on a stream is the one it was told
+\* initially, less what it has sent, plus what the relay has credited: with every octet credited at once, that is the
+\* initial window - which the relay therefore must never make smaller than the one the connection began with (the
+\* receiver's WINDOW_UPDATEs never reach A, so nothing would ever open it again)
+AWin(s) == aInit + aCred[s] - aFC[s]
+NotStarved       == \A s \in Streams : AWin(s) >= W0
 NoEligibleQueued ==                            \* C09/C10: nothing that fits stays queued
   \A s \in Streams : q[s] # <<>> => Blocked(Head(q[s]), Buf(s), cw)
 \* C10: what the sender has emitted on a stream is delivered, on its way to the receiver or queued, in order - nothing is
